@@ -138,11 +138,11 @@ theorem nodeG_pc {good : Name → Bool} {nd : Node} (pc' : PC) (h : NodeG good n
   · exact Or.inr (Or.inr (Or.inl h3))
   · exact Or.inr (Or.inr (Or.inr h3))
 
-theorem nodeG_mkNode (good : Name → Bool) (td : TDef) (anc : List Name) : NodeG good (mkNode td anc) :=
-  ⟨fun _ d hd => Or.inl hd, fun e => by simp [mkNode] at e, fun e => by simp [mkNode] at e⟩
+theorem nodeG_mkNode (good : Name → Bool) (td : TDef) (anc : List Name) : NodeG good (mkNodeI s₀ d₀ td anc) :=
+  ⟨fun _ d hd => Or.inl hd, fun e => by simp [mkNodeI, mkNodeI, mkNode] at e, fun e => by simp [mkNodeI, mkNodeI, mkNode] at e⟩
 
 theorem core_newNode {inp : Input} {s : Sys} {d : Name} (td : TDef) (anc : List Name) (h : ObeyCore inp s)
-    (hc : CountOK (stOf s) s.events) (hd : s.nodes d = none) : ObeyCore inp (setNode s d (mkNode td anc)) :=
+    (hc : CountOK (stOf s) s.events) (hd : s.nodes d = none) : ObeyCore inp (setNode s d (mkNodeI s₀ d₀ td anc)) :=
   core_retask h hc (by simp [stOf, hd]) rfl (nodeG_mkNode _ td anc)
 
 theorem core_registerWaiting {inp : Input} {s : Sys} (n : Name) (wf : List Name) (h : ObeyCore inp s) :
@@ -208,11 +208,11 @@ theorem core_genStep {inp : Input} {s : Sys} {n : Name} {nd : Node} (h : ObeyCor
     | some td =>
       simp only []
       have hnd : n ≠ d := by intro e; subst e; rw [hn] at hd; cases hd
-      have h1 := core_newNode td (nd.anc ++ [d]) h hc hd
-      have hn' : (setNode s d (mkNode td (nd.anc ++ [d]))).nodes n = some nd := by simp [setNode, hnd, hn]
-      have hf : goodOf (setNode s d (mkNode td (nd.anc ++ [d]))) = goodOf s := by
+      have h1 := core_newNode (s₀ := s) (d₀ := d) td (nd.anc ++ [d]) h hc hd
+      have hn' : (setNode s d (mkNodeI s d td (nd.anc ++ [d]))).nodes n = some nd := by simp [setNode, hnd, hn]
+      have hf : goodOf (setNode s d (mkNodeI s d td (nd.anc ++ [d]))) = goodOf s := by
         funext k; unfold goodOf; rw [stOf_setNode]; split
-        · rename_i e; subst e; simp [stOf, hd, mkNode]
+        · rename_i e; subst e; simp [stOf, hd, mkNodeI, mkNode]
         · rfl
       have h2 := core_setNode (x := { nd with pc := .taskIter ds }) h1 hn' rfl rfl (by rw [hf]; exact hx)
       exact h2.congr rfl rfl
